@@ -403,6 +403,14 @@ func init() {
 	})
 	regBig("Bits", func(ex *Exec, st *State, fn *ssa.Function, args []Value, depth int) []Value {
 		a := ex.bigAbs(ex.bigLoad(st, args[0]))
+		if ex.IntMode && !a.IsConst() && a.Hi == nil {
+			// unbounded value: only the length is modelled, as an arbitrary n >= 0 with n == 0 <=> a == 0
+			n := NewVar("bitsLen", IntSort)
+			n.Lo = bigZero
+			st.Assume(ICmpRaw("<=", IntC64(0), n))
+			st.Assume(Eq(Eq(n, IntC64(0)), Eq(a, IntC64(0))))
+			return []Value{SliceV{SymLen: n}}
+		}
 		nb := ex.bigByteLen(st, a)
 		nw := (nb + 7) / 8
 		// nb fixes the byte length; the word count follows
